@@ -1,18 +1,20 @@
-(* Stages B, C and D of C01_back: programs over top-level variables.  A program is a list of top-level statements -
-   declarations `x := e`, assignments `x = e`, `x += e` (also -= *= /=), `x++`, `x--`, expression statements, conditionals `if c { ... } else { ... }` / `if c { ... }` and
-   condition loops `for c { ... }` whose blocks are again lists of assignments, expression statements, conditionals
-   and loops, nested to any depth, with break and continue - over the scalar expressions of ScalarFrag.v (which may mention the variables
-   declared so far).  The k-th declaration declares variable k; [names] gives the variables their (distinct,
-   non-empty) identifiers.  As for the expression fragment: the code the compiler model emits and the source-level
-   result are pure functions; proofs/Var*Proofs.v show that they ARE what Compiler.compile_program, Sem.run and
-   VM.run compute.  Loops make the source-level meaning a fuelled function: [None] = the fuel did not suffice. *)
+(* Stages B - E of C01_back: programs over variables.  A program is a list of statements - declarations `x := e`
+   (at the top level AND inside blocks: a variable declared in a block is visible until the block ends), assignments
+   `x = e`, `x += e` (also -= *= /=), `x++`, `x--`, expression statements, conditionals `if c { ... } else { ... }` /
+   `if c { ... }` and condition loops `for c { ... }` with break and continue, whose blocks are again lists of
+   statements, nested to any depth - over the scalar expressions of ScalarFrag.v.  A variable is referred to by its
+   position among the variables VISIBLE at that point (in declaration order); the compiler gives the d-th declaration
+   of the program text the global slot d, whatever block it is in.  [names] gives the slots their (distinct, non-empty)
+   identifiers.  As for the expression fragment: the code the compiler model emits and the source-level result are pure
+   functions; proofs/Var*Proofs.v show that they ARE what Compiler.compile_program, Sem.run and VM.run compute.  Loops
+   make the source-level meaning a fuelled function: [None] = the fuel did not suffice. *)
 From Coq Require Import List ZArith NArith Bool Arith.
 Require Import RV.model.Syntax RV.model.Compiler RV.model.ScalarFrag.
 Import ListNotations.
 Local Open Scope nat_scope.
 
 Inductive stmt :=
-| SDecl (e : sexp)                       (* x_k := e   (top level only) *)
+| SDecl (e : sexp)                       (* x := e : x becomes the last visible variable *)
 | SSet (i : nat) (e : sexp)              (* x_i = e *)
 | SSetOp (i : nat) (o : bop) (e : sexp)  (* x_i += e,  -=  *=  /= *)
 | SInc (i : nat) (up : bool)             (* x_i++  /  x_i-- *)
@@ -22,51 +24,65 @@ Inductive stmt :=
 | SWhile (c : sexp) (b : list stmt)      (* for c { b } *)
 | SBreak | SContinue.                    (* only inside a loop body *)
 
-(* k = number of variables declared so far *)
-Definition next_k (k : nat) (s : stmt) : nat := match s with SDecl _ => S k | _ => k end.
-
 Definition is_compound (o : bop) : bool := match o with BAdd | BSub | BMul | BDiv => true | _ => false end.
 
-(* ---------------------------------------------------------------- the AST of a program *)
-Definition embed_list (es : nat -> stmt -> node) : nat -> list stmt -> list node :=
-  fix el (k : nat) (l : list stmt) : list node :=
-    match l with [] => [] | s :: r => es k s :: el (next_k k s) r end.
-Fixpoint embed_stmt (names : list (list N)) (k : nat) (s : stmt) {struct s} : node :=
+(* the number of declarations in a statement, nested ones included: so many global slots its code claims *)
+Definition sum_list (h : stmt -> nat) (l : list stmt) : nat := fold_right (fun s a => h s + a) 0 l.
+Fixpoint nd (s : stmt) : nat :=
   match s with
-  | SDecl e => NVar (nth k names []) (embed names e)
-  | SSet i e => NAssign (nth i names []) [61%N] (embed names e)
-  | SSetOp i o e => NAssign (nth i names []) (op_text o ++ [61%N]) (embed names e)
-  | SInc i up => NPostfix (nth i names []) (if up then [43; 43]%N else [45; 45]%N)
-  | SExpr e => embed names e
-  | SIf c t e => NIf (embed names c) (embed_list (embed_stmt names) k t) (Some (embed_list (embed_stmt names) k e))
-  | SIf1 c t => NIf (embed names c) (embed_list (embed_stmt names) k t) None
-  | SWhile c b => NFor (Some (embed names c)) None None (embed_list (embed_stmt names) k b)
+  | SDecl _ => 1
+  | SIf _ t e => sum_list nd t + sum_list nd e
+  | SIf1 _ b | SWhile _ b => sum_list nd b
+  | _ => 0
+  end.
+Definition ndecls (l : list stmt) : nat := sum_list nd l.
+
+(* [k]: the next free slot; [scope]: the slots of the visible variables, in declaration order *)
+Definition next_scope (k : nat) (scope : list nat) (s : stmt) : list nat :=
+  match s with SDecl _ => scope ++ [k] | _ => scope end.
+Definition slot_of (scope : list nat) (i : nat) : nat := nth i scope 0.
+(* the identifiers of the visible variables *)
+Definition vnames (names : list (list N)) (scope : list nat) : list (list N) := map (fun sl => nth sl names []) scope.
+
+(* ---------------------------------------------------------------- the AST of a program *)
+Definition embed_list (es : nat -> list nat -> stmt -> node) : nat -> list nat -> list stmt -> list node :=
+  fix el (k : nat) (scope : list nat) (l : list stmt) : list node :=
+    match l with [] => [] | s :: r => es k scope s :: el (k + nd s) (next_scope k scope s) r end.
+Fixpoint embed_stmt (names : list (list N)) (k : nat) (scope : list nat) (s : stmt) {struct s} : node :=
+  let vn := vnames names scope in
+  match s with
+  | SDecl e => NVar (nth k names []) (embed vn e)
+  | SSet i e => NAssign (nth i vn []) [61%N] (embed vn e)
+  | SSetOp i o e => NAssign (nth i vn []) (op_text o ++ [61%N]) (embed vn e)
+  | SInc i up => NPostfix (nth i vn []) (if up then [43; 43]%N else [45; 45]%N)
+  | SExpr e => embed vn e
+  | SIf c t e => NIf (embed vn c) (embed_list (embed_stmt names) k scope t)
+                     (Some (embed_list (embed_stmt names) (k + sum_list nd t) scope e))
+  | SIf1 c t => NIf (embed vn c) (embed_list (embed_stmt names) k scope t) None
+  | SWhile c b => NFor (Some (embed vn c)) None None (embed_list (embed_stmt names) k scope b)
   | SBreak => NBreak
   | SContinue => NContinue
   end.
-Definition embed_stmts (names : list (list N)) : nat -> list stmt -> list node := embed_list (embed_stmt names).
+Definition embed_stmts (names : list (list N)) : nat -> list nat -> list stmt -> list node := embed_list (embed_stmt names).
 
 (* ---------------------------------------------------------------- well-formedness *)
+(* [n]: the number of visible variables *)
 Definition wf_list (w : nat -> stmt -> bool) : nat -> list stmt -> bool :=
-  fix wl (k : nat) (l : list stmt) : bool :=
-    match l with [] => true | s :: r => w k s && wl (next_k k s) r end.
-(* variables are used after their declaration; declarations only at the top level; break / continue only inside a loop *)
-Fixpoint wf_stmt (top lp : bool) (k : nat) (s : stmt) {struct s} : bool :=
+  fix wl (n : nat) (l : list stmt) : bool :=
+    match l with [] => true | s :: r => w n s && wl (match s with SDecl _ => S n | _ => n end) r end.
+(* variables are used while they are visible; break / continue only inside a loop *)
+Fixpoint wf_stmt (lp : bool) (n : nat) (s : stmt) {struct s} : bool :=
   match s with
-  | SDecl e => top && wf k e
-  | SSet i e => Nat.ltb i k && wf k e
-  | SSetOp i o e => Nat.ltb i k && wf k e && is_compound o
-  | SInc i _ => Nat.ltb i k
-  | SExpr e => wf k e
-  | SIf c t e => wf k c && wf_list (wf_stmt false lp) k t && wf_list (wf_stmt false lp) k e
-  | SIf1 c t => wf k c && wf_list (wf_stmt false lp) k t
-  | SWhile c b => wf k c && wf_list (wf_stmt false true) k b
+  | SDecl e | SExpr e => wf n e
+  | SSet i e => Nat.ltb i n && wf n e
+  | SSetOp i o e => Nat.ltb i n && wf n e && is_compound o
+  | SInc i _ => Nat.ltb i n
+  | SIf c t e => wf n c && wf_list (wf_stmt lp) n t && wf_list (wf_stmt lp) n e
+  | SIf1 c t => wf n c && wf_list (wf_stmt lp) n t
+  | SWhile c b => wf n c && wf_list (wf_stmt true) n b
   | SBreak | SContinue => lp
   end.
-Definition wf_stmts (top lp : bool) : nat -> list stmt -> bool := wf_list (wf_stmt top lp).
-
-Fixpoint ndecls (l : list stmt) : nat :=
-  match l with [] => 0 | SDecl _ :: r => S (ndecls r) | _ :: r => ndecls r end.
+Definition wf_stmts (lp : bool) : nat -> list stmt -> bool := wf_list (wf_stmt lp).
 
 (* fuel the compiler and the reference semantics need, operand-stack slots the VM needs *)
 Definition max_list (h : stmt -> nat) (d : nat) (l : list stmt) : nat := fold_right (fun s a => Nat.max (h s) a) d l.
@@ -94,11 +110,19 @@ Fixpoint set_nth (i : nat) (v : sval) (l : list sval) : list sval :=
   match l, i with [], _ => [] | _ :: r, O => v :: r | x :: r, S j => x :: set_nth j v r end.
 
 (* ---------------------------------------------------------------- source-level meaning *)
-(* a statement: the new values of the variables and the statement's value, or what stopped it - the class of an error, or
-   a break / continue on its way to the enclosing loop (with the values of the variables at that point);
-   None: not enough fuel (each nesting level and each loop iteration costs one) *)
+(* [rho]: the values of the visible variables.  A statement gives the new values and the statement's value, or what
+   stopped it - the class of an error, or a break / continue on its way to the enclosing loop (with the values at that
+   point); None: not enough fuel (each nesting level and each loop iteration costs one).  When a block ends - in
+   whichever way - the variables it declared are gone. *)
 Inductive stop := StErr (e : serr) | StBrk (rho : list sval) | StCont (rho : list sval).
 Definition result : Type := option ((list sval * sval) + stop).
+Definition trunc (n : nat) (r : (list sval * sval) + stop) : (list sval * sval) + stop :=
+  match r with
+  | inl (rho, v) => inl (firstn n rho, v)
+  | inr (StBrk rho) => inr (StBrk (firstn n rho))
+  | inr (StCont rho) => inr (StCont (firstn n rho))
+  | inr (StErr x) => inr (StErr x)
+  end.
 (* a statement list: the value of its last statement if that is an expression, else nil *)
 Definition run_list (step : list sval -> stmt -> result) : list sval -> list stmt -> sval -> result :=
   fix rl (rho : list sval) (l : list stmt) (last : sval) : result :=
@@ -106,6 +130,9 @@ Definition run_list (step : list sval -> stmt -> result) : list sval -> list stm
     | [] => Some (inl (rho, last))
     | s :: r => match step rho s with Some (inl (rho', v)) => rl rho' r v | other => other end
     end.
+(* a block *)
+Definition run_block (step : list sval -> stmt -> result) (rho : list sval) (l : list stmt) : result :=
+  option_map (trunc (length rho)) (run_list step rho l VNil).
 Definition of_sev (r : sval + serr) (k : sval -> (list sval * sval)) : result :=
   match r with inl v => Some (inl (k v)) | inr x => Some (inr (StErr x)) end.
 Fixpoint run_stmt (fuel : nat) (rho : list sval) (s : stmt) {struct fuel} : result :=
@@ -122,17 +149,17 @@ Fixpoint run_stmt (fuel : nat) (rho : list sval) (s : stmt) {struct fuel} : resu
     | SInc i up => of_sev (sbin BAdd (nth i rho VNil) (VInt (if up then 1 else -1))) (fun r => (set_nth i r rho, VNil))
     | SExpr e => of_sev (sev rho e) (fun v => (rho, v))
     | SIf c t e => match sev rho c with
-                   | inl vc => run_list (run_stmt f) rho (if struthy vc then t else e) VNil
+                   | inl vc => run_block (run_stmt f) rho (if struthy vc then t else e)
                    | inr x => Some (inr (StErr x))
                    end
     | SIf1 c t => match sev rho c with
-                  | inl vc => if struthy vc then run_list (run_stmt f) rho t VNil else Some (inl (rho, VNil))
+                  | inl vc => if struthy vc then run_block (run_stmt f) rho t else Some (inl (rho, VNil))
                   | inr x => Some (inr (StErr x))
                   end
     | SWhile c b => match sev rho c with
                     | inl vc =>
                         if struthy vc then
-                          match run_list (run_stmt f) rho b VNil with
+                          match run_block (run_stmt f) rho b with
                           | Some (inl (rho', _)) | Some (inr (StCont rho')) => run_stmt f rho' (SWhile c b)
                           | Some (inr (StBrk rho')) => Some (inl (rho', VNil))
                           | other => other
@@ -149,58 +176,60 @@ Definition run_stmts (fuel : nat) : list sval -> list stmt -> sval -> result := 
 (* ---------------------------------------------------------------- emitted code *)
 (* code is a list of slots: numbers, and the two placeholders break / continue leave for the enclosing loop to patch *)
 Definition slots : Type := list slot * list konst.
-Definition islots (p : list N * list konst) : slots := (I (fst p), snd p).
 Definition is_expr_stmt (s : stmt) : bool := match s with SExpr _ | SIf _ _ _ | SIf1 _ _ => true | _ => false end.
 (* a non-empty statement list as compileStatements lays it out: an expression statement is followed by PopTop unless
    it is the last one; a last statement that is not an expression is followed by Nil *)
-Definition layout (sc : nat -> nat -> stmt -> slots) : nat -> nat -> list stmt -> slots :=
-  fix lc (k base : nat) (l : list stmt) : slots :=
+Definition layout (sc : nat -> list nat -> nat -> stmt -> slots) : nat -> list nat -> nat -> list stmt -> slots :=
+  fix lc (k : nat) (scope : list nat) (base : nat) (l : list stmt) : slots :=
     match l with
     | [] => ([], [])
     | s :: r =>
-        let '(c, ks) := sc k base s in
+        let '(c, ks) := sc k scope base s in
         match r with
         | [] => (c ++ (if is_expr_stmt s then [] else I [opNil]), ks)
-        | _ :: _ => let '(cr, kr) := lc (next_k k s) (base + length ks) r in
+        | _ :: _ => let '(cr, kr) := lc (k + nd s) (next_scope k scope s) (base + length ks) r in
                     (c ++ (if is_expr_stmt s then I [opPopTop] else []) ++ cr, ks ++ kr)
         end
     end.
 (* a block: an empty one is Nil *)
-Definition block_layout (sc : nat -> nat -> stmt -> slots) (k base : nat) (l : list stmt) : slots :=
-  match l with [] => (I [opNil], []) | _ :: _ => layout sc k base l end.
+Definition block_layout (sc : nat -> list nat -> nat -> stmt -> slots) (k : nat) (scope : list nat) (base : nat) (l : list stmt) : slots :=
+  match l with [] => (I [opNil], []) | _ :: _ => layout sc k scope base l end.
 
-(* the code of one statement (without what separates it from the next), [k] variables declared, [base] constants *)
-Fixpoint stmt_code (k base : nat) (s : stmt) {struct s} : slots :=
+(* the code of one statement (without what separates it from the next): [k] the next free slot, [scope] the slots of
+   the visible variables, [base] the number of constants so far *)
+Fixpoint stmt_code (k : nat) (scope : list nat) (base : nat) (s : stmt) {struct s} : slots :=
+  let ce := cexp_at (slot_of scope) in
   match s with
-  | SDecl e => let '(c, ks) := cexp base e in (I (c ++ [opStoreGlobal; N.of_nat k]), ks)
-  | SSet i e => let '(c, ks) := cexp base e in (I (c ++ [opStoreGlobal; N.of_nat i]), ks)
-  | SSetOp i o e => let '(c, ks) := cexp base e in
-                    (I ([opLoadGlobal; N.of_nat i] ++ c ++ op_code o ++ [opStoreGlobal; N.of_nat i]), ks)
-  | SInc i up => (I [opLoadGlobal; N.of_nat i; opLoadConst; N.of_nat base; opBinaryOp; bAdd; opStoreGlobal; N.of_nat i],
+  | SDecl e => let '(c, ks) := ce base e in (I (c ++ [opStoreGlobal; N.of_nat k]), ks)
+  | SSet i e => let '(c, ks) := ce base e in (I (c ++ [opStoreGlobal; N.of_nat (slot_of scope i)]), ks)
+  | SSetOp i o e => let '(c, ks) := ce base e in
+                    (I ([opLoadGlobal; N.of_nat (slot_of scope i)] ++ c ++ op_code o ++ [opStoreGlobal; N.of_nat (slot_of scope i)]), ks)
+  | SInc i up => (I [opLoadGlobal; N.of_nat (slot_of scope i); opLoadConst; N.of_nat base; opBinaryOp; bAdd;
+                     opStoreGlobal; N.of_nat (slot_of scope i)],
                   [KInt (if up then 1 else -1)])
-  | SExpr e => islots (cexp base e)
+  | SExpr e => let '(c, ks) := ce base e in (I c, ks)
   | SIf c t e =>
-      let '(cc, kc) := cexp base c in
-      let '(ct, kt) := block_layout stmt_code k (base + length kc) t in
-      let '(ce, ke) := block_layout stmt_code k (base + length kc + length kt) e in
-      (I cc ++ I [opPopJumpForwardIfFalse; (nlen ct + 4)%N] ++ ct ++ I [opJumpForward; (nlen ce + 2)%N] ++ ce, kc ++ kt ++ ke)
+      let '(cc, kc) := ce base c in
+      let '(ct, kt) := block_layout stmt_code k scope (base + length kc) t in
+      let '(ce0, ke) := block_layout stmt_code (k + sum_list nd t) scope (base + length kc + length kt) e in
+      (I cc ++ I [opPopJumpForwardIfFalse; (nlen ct + 4)%N] ++ ct ++ I [opJumpForward; (nlen ce0 + 2)%N] ++ ce0, kc ++ kt ++ ke)
   | SIf1 c t =>
-      let '(cc, kc) := cexp base c in
-      let '(ct, kt) := block_layout stmt_code k (base + length kc) t in
+      let '(cc, kc) := ce base c in
+      let '(ct, kt) := block_layout stmt_code k scope (base + length kc) t in
       (I cc ++ I [opPopJumpForwardIfFalse; (nlen ct + 4)%N] ++ ct ++ I [opJumpForward; 3%N] ++ I [opNil], kc ++ kt)
   | SWhile c b =>
       (* the loop patches the placeholders of its body: break jumps to the Nop behind the JumpBackward, continue to the
          JumpBackward *)
-      let '(cc, kc) := cexp base c in
-      let '(cb, kb) := block_layout stmt_code k (base + length kc) b in
+      let '(cc, kc) := ce base c in
+      let '(cb, kb) := block_layout stmt_code k scope (base + length kc) b in
       let inner := I cc ++ I [opPopJumpForwardIfFalse; (nlen cb + 6)%N] ++ cb ++ I [opPopTop] in
       let jb := nlen inner in
       (patch 0 (jb + 2) jb inner ++ I [opJumpBackward; jb; opNop], kc ++ kb)
   | SBreak => ([SI opJumpForward; SBrk], [])
   | SContinue => ([SI opJumpForward; SCont], [])
   end.
-Definition block_code : nat -> nat -> list stmt -> slots := block_layout stmt_code.
-Definition scode : nat -> nat -> list stmt -> slots := layout stmt_code.
+Definition block_code : nat -> list nat -> nat -> list stmt -> slots := block_layout stmt_code.
+Definition scode : nat -> list nat -> nat -> list stmt -> slots := layout stmt_code.
 (* what ends up in the code object *)
 Definition strip (l : list slot) : list N := map (fun s => match s with SI n => n | _ => PLACEHOLDER end) l.
-Definition pcode (k base : nat) (l : list stmt) : list N * list konst := (strip (fst (scode k base l)), snd (scode k base l)).
+Definition pcode (l : list stmt) : list N * list konst := (strip (fst (scode 0 [] 0 l)), snd (scode 0 [] 0 l)).
